@@ -80,6 +80,11 @@ def units(tier, seed):
     else:
         for i in range(0, len(core), 2):
             us.append({"kind": "seq", "label": f"rev:{core[i][0]}", "first": [l for l, _ in core[i : i + 2]], "rest": "full", "depth": 2, "seed": seed, "tier": tier})
+    if tier == "quick":
+        # the third pair of a stream: all sequences of three pairs over a six-pair alphabet
+        mini = [l for l, _ in core if l.split("/")[0] in ("Startup", "GetRandom", "Hash") and l.split("/")[1] in ("plain", "decrypt+encrypt", "failed", "encrypt")][:6]
+        for l in mini:
+            us.append({"kind": "seq", "label": f"deep:{l}", "first": [l], "rest": "mini", "mini": mini, "depth": 3, "seed": seed, "tier": tier})
     labels = [l for l, _ in full]
     for i in range(0, len(labels), 16):
         us.append({"kind": "boundary", "label": f"boundary:{i}", "labels": labels[i : i + 16], "seed": seed, "tier": tier})
@@ -220,7 +225,7 @@ def run_unit(unit):
     if unit["kind"] == "boundary":
         return boundary_states(acc, unit)
     full, core = get_alpha(unit["seed"])
-    rest = core if unit["rest"] == "core" else full
+    rest = core if unit["rest"] == "core" else {l: full[l] for l in unit["mini"]} if unit["rest"] == "mini" else full
     for first in unit["first"]:
         if first not in full:
             continue
